@@ -804,8 +804,8 @@ Proof. repeat split; try (eexists; split; vm_compute; reflexivity); vm_compute; 
 
 Lemma named_url_always_evicted_is_false : ~ named_url_always_evicted.
 Proof.
-  intros H. destruct relative_path_reference_stays as [Hn Hs].
-  specialize (H w_rq (w_rp (B [118])) w_http w_auth (B [118]) w_target pg_METHOD_GET w_rq_wf w_rq_purges
+  intros H. destruct dot_segments_stay as [[Hn Hs] _].        (* Location: /d/./v *)
+  specialize (H w_rq (w_rp (B [47;100;47;46;47;118])) w_http w_auth (B [47;100;47;46;47;118]) w_target pg_METHOD_GET w_rq_wf w_rq_purges
                 ltac:(vm_compute; reflexivity) (or_introl eq_refl) Hn ltac:(vm_compute; auto)).
   pose proof (evicted_not_in_store _ [(pg_METHOD_GET, w_target)] _ H) as Hc. rewrite Hs in Hc. discriminate.
 Qed.
@@ -894,3 +894,9 @@ Lemma normal_form_examples :
   strip_fragment (B [47;100;47;118]) = B [47;100;47;118] /\ remove_dot_segments (B [47;100;47;118]) = B [47;100;47;118] /\
   forallb pg_PathChars (B [47;100;47;118]) = true /\ map lower w_http = w_http /\ map lower w_auth = w_auth.
 Proof. repeat split; vm_compute; reflexivity. Qed.
+
+Lemma method_token_examples :
+  method_of_image true [80;79;83;84] = pg_METHOD_POST /\ method_of_image true [112;117;116] = pg_METHOD_PUT /\
+  method_of_image false [112;117;116] = pg_METHOD_OTHER /\ method_of_image true [80;65;84;67;72] = pg_METHOD_OTHER /\
+  purges_others (method_of_image true [79;80;84;73;79;78;83]) = false.
+Proof. vm_compute. repeat split. Qed.
